@@ -116,7 +116,36 @@ impl Name {
     pub fn to_owned(&self) -> (r: Name) ensures r == *self, { unimplemented!() }
     #[verifier::external_body]
     pub fn to_string(&self) -> (r: Name) ensures r == *self, { unimplemented!() }
+    /// `String::as_str` (0 hits on /repo): the same name, borrowed
+    #[verifier::external_body]
+    pub fn as_str(&self) -> (r: &Name) ensures *r == *self, { unimplemented!() }
 }
+/// `str::cmp` (byte-wise lexicographic order of two names) as a sign: < 0, 0, > 0.  Uninterpreted: nothing the
+/// glue states depends on the order itself, only on whether a table is KNOWN to be sorted by it.
+pub uninterp spec fn name_cmp(a: Name, b: Name) -> int;
+/// "the chromosome table is sorted by name" — the precondition under which `slice::binary_search_by` with the
+/// comparator `|x| x.name.as_str().cmp(target)` means anything
+pub open spec fn sorted_by_name(v: Seq<ChromInfo>) -> bool {
+    forall|i: int, j: int| 0 <= i < j < v.len() ==> name_cmp(#[trigger] v[i].name, #[trigger] v[j].name) <= 0
+}
+/// shim for `V.binary_search_by(|x| x.name.as_str().cmp(chrom_name))` (0 hits on /repo; lets an edit that
+/// bisects the chromosome table reach the verifier) with `slice::binary_search_by`'s REAL contract: it never
+/// panics and the index it returns is in range (Ok: < len, Err: <= len); IF the slice is sorted consistently with
+/// the comparator, Ok(i) is AN element that compares Equal (not necessarily the first) and Err(j) means no
+/// element compares Equal (j = the insertion point); if the slice is NOT sorted that way "the returned result is
+/// unspecified and meaningless" (std docs) — any in-range Ok / Err.
+#[verifier::external_body]
+pub fn bsearch_chrom_by_name(v: &Vec<ChromInfo>, chrom_name: &Name) -> (r: Result<usize, usize>)
+    ensures
+        r matches Ok(i) ==> i < v@.len(),
+        r matches Err(j) ==> j <= v@.len(),
+        sorted_by_name(v@) ==> (r matches Ok(i) ==> v@[i as int].name == *chrom_name),
+        sorted_by_name(v@) ==> (r matches Err(j) ==> {
+            &&& forall|k: int| 0 <= k < v@.len() ==> (#[trigger] v@[k]).name != *chrom_name
+            &&& forall|k: int| 0 <= k < j ==> name_cmp((#[trigger] v@[k]).name, *chrom_name) < 0
+            &&& forall|k: int| j <= k < v@.len() ==> name_cmp((#[trigger] v@[k]).name, *chrom_name) > 0
+        }),
+{ unimplemented!() }
 
 // stand-in that only matters for CHANGED code (0 hits on /repo): lets an edit that swallows an error reach the
 // verifier.  Weakest contract: on Ok the value is the payload; on Err nothing is known.
@@ -269,6 +298,7 @@ impl BBIFileInfo {
 //@sub /chrom_name: &str/ => chrom_name: &Name min=1
 //@sub /((?:\w+(?:\(\))?\s*\.\s*)*\w+(?:\(\))?)\s*\.iter\(\)\s*\.find\(\|&?\w+\| \w+\.name == chrom_name\)/ => find_chrom(&\1, chrom_name) min=0
 //@sub /((?:\w+(?:\(\))?\s*\.\s*)*\w+(?:\(\))?)\s*\.iter\(\)\s*\.position\(\|&?\w+\| \w+\.name == chrom_name\)/ => position_chrom(&\1, chrom_name) min=0
+//@sub /((?:\w+(?:\(\))?\s*\.\s*)*\w+(?:\(\))?)\s*\.binary_search_by\(\|(\w+)\|\s*\2\.name\.as_str\(\)\.cmp\(chrom_name\)\)/ => bsearch_chrom_by_name(&\1, chrom_name) min=0
 //@ret r
 //@sig
     ensures
@@ -287,6 +317,7 @@ impl BBIFileInfo {
 //@sub /chrom_name: &str/ => chrom_name: &Name min=1
 //@sub /((?:\w+(?:\(\))?\s*\.\s*)*\w+(?:\(\))?)\s*\.iter\(\)\s*\.find\(\|&?\w+\| \w+\.name == chrom_name\)/ => find_chrom(&\1, chrom_name) min=0
 //@sub /((?:\w+(?:\(\))?\s*\.\s*)*\w+(?:\(\))?)\s*\.iter\(\)\s*\.position\(\|&?\w+\| \w+\.name == chrom_name\)/ => position_chrom(&\1, chrom_name) min=0
+//@sub /((?:\w+(?:\(\))?\s*\.\s*)*\w+(?:\(\))?)\s*\.binary_search_by\(\|(\w+)\|\s*\2\.name\.as_str\(\)\.cmp\(chrom_name\)\)/ => bsearch_chrom_by_name(&\1, chrom_name) min=0
 //@sub /(search_cir_tree_inner\([^()]*\))\?/ => (match \1 { Ok(v__) => v__, Err(e__) => return Err(io_to_cts(e__)) }) min=0
 //@ret r
 //@sig
@@ -534,6 +565,7 @@ impl BigBedRead {
 //@sub /\.into_iter\(\)/ => "" min=0
 //@sub /((?:\w+(?:\(\))?\s*\.\s*)*\w+(?:\(\))?)\s*\.iter\(\)\s*\.find\(\|&?\w+\| \w+\.name == chrom_name\)/ => find_chrom(&\1, chrom_name) min=0
 //@sub /((?:\w+(?:\(\))?\s*\.\s*)*\w+(?:\(\))?)\s*\.iter\(\)\s*\.position\(\|&?\w+\| \w+\.name == chrom_name\)/ => position_chrom(&\1, chrom_name) min=0
+//@sub /((?:\w+(?:\(\))?\s*\.\s*)*\w+(?:\(\))?)\s*\.binary_search_by\(\|(\w+)\|\s*\2\.name\.as_str\(\)\.cmp\(chrom_name\)\)/ => bsearch_chrom_by_name(&\1, chrom_name) min=0
 //@sub /(self\.info\.chrom_id\([^()]*\))\?/ => (match \1 { Ok(v__) => v__, Err(e__) => return Err(cinf_to_read(e__)) }) min=0
 //@sub /(self\.full_data_cir_tree\(\))\?/ => (match \1 { Ok(v__) => v__, Err(e__) => return Err(fdct_to_read(e__)) }) min=0
 //@sub /(search_cir_tree\([^()]*\))\?/ => (match \1 { Ok(v__) => v__, Err(e__) => return Err(cts_to_read(e__)) }) min=0
@@ -567,6 +599,7 @@ impl BigBedRead {
 //@sub /\.into_iter\(\)/ => "" min=0
 //@sub /((?:\w+(?:\(\))?\s*\.\s*)*\w+(?:\(\))?)\s*\.iter\(\)\s*\.find\(\|&?\w+\| \w+\.name == chrom_name\)/ => find_chrom(&\1, chrom_name) min=0
 //@sub /((?:\w+(?:\(\))?\s*\.\s*)*\w+(?:\(\))?)\s*\.iter\(\)\s*\.position\(\|&?\w+\| \w+\.name == chrom_name\)/ => position_chrom(&\1, chrom_name) min=0
+//@sub /((?:\w+(?:\(\))?\s*\.\s*)*\w+(?:\(\))?)\s*\.binary_search_by\(\|(\w+)\|\s*\2\.name\.as_str\(\)\.cmp\(chrom_name\)\)/ => bsearch_chrom_by_name(&\1, chrom_name) min=0
 //@sub /(self\.info\.chrom_id\([^()]*\))\?/ => (match \1 { Ok(v__) => v__, Err(e__) => return Err(cinf_to_read(e__)) }) min=0
 //@sub /(self\.full_data_cir_tree\(\))\?/ => (match \1 { Ok(v__) => v__, Err(e__) => return Err(fdct_to_read(e__)) }) min=0
 //@sub /(search_cir_tree\([^()]*\))\?/ => (match \1 { Ok(v__) => v__, Err(e__) => return Err(cts_to_read(e__)) }) min=0
